@@ -3,8 +3,9 @@ package p9
 // vhloop: helpers of the C06/C14 harness - a gated backend (every backend call
 // names a gate; a closed gate blocks the call until the test releases it; enter
 // and exit of every call are recorded), a fragmenting slow writer, a raw frame
-// reader that validates every reply frame byte by byte, and the driver that runs
-// one scenario against the real Server.Handle.
+// reader that validates every reply frame byte by byte, and connections to a real
+// Server.Handle made of two pipes (requests, replies) so that the peer can stop
+// reading replies or stop sending requests independently.
 
 import (
 	"bytes"
@@ -21,9 +22,12 @@ import (
 )
 
 const (
-	vhloopFill      = 0xA5
-	vhloopCloseBase = 100000 // gate id of File k's Close = vhloopCloseBase + k
-	vhloopReadCount = 600    // bytes per Tread: Rread = header + count[4] + payload (three Write calls)
+	vhloopFill        = 0xA5
+	vhloopCloseBase   = 100000 // gate of File k's Close
+	vhloopGetAttrBase = 200000 // gate of File k's GetAttr
+	vhloopSetAttrBase = 300000 // gate of File k's SetAttr
+	vhloopWalkBase    = 400000 // gate of File k's Walk(nil) (clone)
+	vhloopReadCount   = 600    // bytes per Tread: Rread = header + count[4] + payload (three Write calls)
 )
 
 type vhloopGate struct {
@@ -48,8 +52,15 @@ func vhloopNewBackend() *vhloopBackend {
 // close a gate before the request that will hit it is sent
 func (b *vhloopBackend) shut(g int) {
 	b.mu.Lock()
+	defer b.mu.Unlock()
+	if gt := b.gates[g]; gt != nil {
+		select {
+		case <-gt.ch: // released earlier: shut it again
+		default:
+			return // still shut (several requests behind one gate)
+		}
+	}
 	b.gates[g] = &vhloopGate{ch: make(chan struct{})}
-	b.mu.Unlock()
 }
 
 func (b *vhloopBackend) release(g, mode int) {
@@ -111,13 +122,15 @@ func (b *vhloopBackend) pass(g int) int {
 	return mode
 }
 
-func (b *vhloopBackend) Attach() (File, error) {
+func (b *vhloopBackend) newFile() *vhloopFile {
 	b.mu.Lock()
 	id := b.nfile
 	b.nfile++
 	b.mu.Unlock()
-	return &vhloopFile{b: b, id: id}, nil
+	return &vhloopFile{b: b, id: id}
 }
+
+func (b *vhloopBackend) Attach() (File, error) { return b.newFile(), nil }
 
 // vhloopFile implements the few File methods the scenarios use; every other
 // method hits the nil embedded interface and panics (the server answers EFAULT).
@@ -127,15 +140,39 @@ type vhloopFile struct {
 	id int
 }
 
-func (f *vhloopFile) GetAttr(req AttrMask) (QID, AttrMask, Attr, error) {
-	return QID{Type: TypeRegular, Path: uint64(f.id) + 1}, AttrMask{Mode: true}, Attr{Mode: ModeRegular | 0o644}, nil
-}
-
-func (f *vhloopFile) Open(mode OpenFlags) (QID, uint32, error) {
-	return QID{Type: TypeRegular, Path: uint64(f.id) + 1}, 0, nil
-}
-
 var errVhloop = linux.EIO
+
+func (f *vhloopFile) qid() QID { return QID{Type: TypeRegular, Path: uint64(f.id) + 1} }
+
+func (f *vhloopFile) GetAttr(req AttrMask) (QID, AttrMask, Attr, error) {
+	if f.b.pass(vhloopGetAttrBase+f.id) == 1 {
+		return QID{}, AttrMask{}, Attr{}, errVhloop
+	}
+	return f.qid(), AttrMask{Mode: true}, Attr{Mode: ModeRegular | 0o644}, nil
+}
+
+func (f *vhloopFile) SetAttr(valid SetAttrMask, attr SetAttr) error {
+	if f.b.pass(vhloopSetAttrBase+f.id) == 1 {
+		return errVhloop
+	}
+	return nil
+}
+
+func (f *vhloopFile) Walk(names []string) ([]QID, File, error) {
+	if len(names) != 0 {
+		return nil, nil, linux.ENOENT
+	}
+	if f.b.pass(vhloopWalkBase+f.id) == 1 {
+		return nil, nil, errVhloop
+	}
+	return nil, f.b.newFile(), nil
+}
+
+func (f *vhloopFile) WalkGetAttr(names []string) ([]QID, File, AttrMask, Attr, error) {
+	return nil, nil, AttrMask{}, Attr{}, linux.ENOSYS
+}
+
+func (f *vhloopFile) Open(mode OpenFlags) (QID, uint32, error) { return f.qid(), 0, nil }
 
 func (f *vhloopFile) ReadAt(p []byte, offset int64) (int, error) {
 	switch f.b.pass(int(offset)) {
@@ -151,8 +188,7 @@ func (f *vhloopFile) ReadAt(p []byte, offset int64) (int, error) {
 }
 
 func (f *vhloopFile) Close() error {
-	switch f.b.pass(vhloopCloseBase + f.id) {
-	case 1:
+	if f.b.pass(vhloopCloseBase+f.id) == 1 {
 		return errVhloop
 	}
 	return nil
@@ -201,12 +237,20 @@ func vhloopEnc(tg uint16, m message) []byte {
 }
 
 type vhloopReply struct {
+	Conn     int  `json:"conn"`
 	Typ      int  `json:"typ"`
 	Tag      int  `json:"tag"`
 	Valid    bool `json:"valid"`  // size and body are what this reply type must look like
-	InsideBk bool `json:"inside"` // Rflush only: the flushed request was inside its backend call when the Rflush was read
+	InsideBk bool `json:"inside"` // Rflush only: a backend call made on behalf of the flushed request was still running when the Rflush was read
 	Target   int  `json:"target"` // Rflush only: gate of the flushed request (-1 none)
-	eof      bool
+}
+
+var vhloopFixedLen = map[msgType]int{}
+
+func init() {
+	for _, m := range []message{&rattach{}, &rgetattr{}, &rsetattr{}, &rwalkgetattr{}, &rlopen{}, &rclunk{}, &rflush{}} {
+		vhloopFixedLen[m.typ()] = len(vhloopEnc(0, m)) - 7
+	}
 }
 
 // vhloopValid checks a complete reply frame (after the 7 byte header) against its type.
@@ -214,8 +258,6 @@ func vhloopValid(typ byte, body []byte) bool {
 	switch msgType(typ) {
 	case msgRlerror:
 		return len(body) == 4
-	case msgRflush, msgRclunk:
-		return len(body) == 0
 	case msgRread:
 		if len(body) < 4 {
 			return false
@@ -230,34 +272,41 @@ func vhloopValid(typ byte, body []byte) bool {
 			}
 		}
 		return true
-	case msgRversion, msgRattach, msgRlopen:
+	case msgRversion:
 		return true
+	}
+	if n, ok := vhloopFixedLen[msgType(typ)]; ok {
+		return len(body) == n
 	}
 	return false
 }
 
-// vhloopConn is one connection to a real Server.Handle.
+// vhloopConn is one connection to Server.Handle: requests go down q, replies come up r.
 type vhloopConn struct {
+	id      int
 	bk      *vhloopBackend
-	c       net.Conn
+	q       net.Conn // client end of the request pipe
+	r       net.Conn // client end of the reply pipe
 	done    chan struct{}
-	frames  chan vhloopReply
+	rdone   chan struct{}    // the reader saw the end of the reply stream
+	frames  chan vhloopReply // shared by the connections of a scenario
 	mu      sync.Mutex
 	targets map[int]int // flush tag -> gate of the request it has to wait for (-1: none)
 	left    int         // bytes after the last whole frame at EOF
 	bad     bool        // a header with an impossible size was seen
+	broken  bool        // we closed the reply pipe ourselves
+	hungup  bool
 }
 
-func vhloopDial(frag bool) *vhloopConn {
-	bk := vhloopNewBackend()
-	cc, sc := net.Pipe()
-	v := &vhloopConn{bk: bk, c: cc, done: make(chan struct{}), frames: make(chan vhloopReply, 4096), targets: map[int]int{}}
-	srv := NewServer(bk)
+func vhloopDial(srv *Server, bk *vhloopBackend, id int, frag bool, frames chan vhloopReply) *vhloopConn {
+	qc, qs := net.Pipe()
+	rc, rs := net.Pipe()
+	v := &vhloopConn{id: id, bk: bk, q: qc, r: rc, done: make(chan struct{}), rdone: make(chan struct{}), frames: frames, targets: map[int]int{}}
 	go func() {
 		if frag {
-			srv.Handle(sc, &vhloopFrag{c: sc})
+			srv.Handle(qs, &vhloopFrag{c: rs})
 		} else {
-			srv.Handle(sc, sc)
+			srv.Handle(qs, rs)
 		}
 		close(v.done)
 	}()
@@ -269,7 +318,7 @@ func vhloopDial(frag bool) *vhloopConn {
 func (v *vhloopConn) reader() {
 	var hdr [7]byte
 	for {
-		n, err := io.ReadFull(v.c, hdr[:])
+		n, err := io.ReadFull(v.r, hdr[:])
 		if err != nil {
 			v.mu.Lock()
 			v.left = n
@@ -281,17 +330,17 @@ func (v *vhloopConn) reader() {
 			v.mu.Lock()
 			v.bad = true
 			v.mu.Unlock()
-			v.frames <- vhloopReply{Typ: int(hdr[4]), Tag: int(binary.LittleEndian.Uint16(hdr[5:])), Valid: false, Target: -1}
+			v.frames <- vhloopReply{Conn: v.id, Typ: int(hdr[4]), Tag: int(binary.LittleEndian.Uint16(hdr[5:])), Valid: false, Target: -1}
 			break
 		}
 		body := make([]byte, size-7)
-		if n, err := io.ReadFull(v.c, body); err != nil {
+		if n, err := io.ReadFull(v.r, body); err != nil {
 			v.mu.Lock()
 			v.left = 7 + n
 			v.mu.Unlock()
 			break
 		}
-		r := vhloopReply{Typ: int(hdr[4]), Tag: int(binary.LittleEndian.Uint16(hdr[5:])), Valid: vhloopValid(hdr[4], body), Target: -1}
+		r := vhloopReply{Conn: v.id, Typ: int(hdr[4]), Tag: int(binary.LittleEndian.Uint16(hdr[5:])), Valid: vhloopValid(hdr[4], body), Target: -1}
 		if msgType(hdr[4]) == msgRflush {
 			v.mu.Lock()
 			g, ok := v.targets[r.Tag]
@@ -303,7 +352,7 @@ func (v *vhloopConn) reader() {
 		}
 		v.frames <- r
 	}
-	v.frames <- vhloopReply{eof: true}
+	close(v.rdone)
 }
 
 var errVhloopStall = errors.New("vhloop: the server did not take the frame (intake blocked)")
@@ -311,8 +360,8 @@ var errVhloopStall = errors.New("vhloop: the server did not take the frame (inta
 // write sends raw bytes; the pipe is synchronous, so this returns once the server's receiver has read them.
 func (v *vhloopConn) write(b []byte) error {
 	for try := 0; try < 3; try++ {
-		v.c.SetWriteDeadline(time.Now().Add(time.Second))
-		n, err := v.c.Write(b)
+		v.q.SetWriteDeadline(time.Now().Add(time.Second))
+		n, err := v.q.Write(b)
 		b = b[n:]
 		if err == nil {
 			return nil
@@ -324,30 +373,51 @@ func (v *vhloopConn) write(b []byte) error {
 	return errVhloopStall
 }
 
-// next waits for the next reply frame: "blocked" is concluded only after 3 x 1 s.
-func (v *vhloopConn) next() (vhloopReply, bool) {
+// stopReading: the peer closes its read side; every later Write of the server fails.
+func (v *vhloopConn) stopReading() {
+	v.mu.Lock()
+	v.broken = true
+	v.mu.Unlock()
+	v.r.Close()
+}
+
+// hangup: the peer closes its sending side; the server's recv sees EOF.
+func (v *vhloopConn) hangup() {
+	v.mu.Lock()
+	v.hungup = true
+	v.mu.Unlock()
+	v.q.Close()
+}
+
+func (v *vhloopConn) waitDone() bool {
 	for try := 0; try < 3; try++ {
 		select {
-		case r := <-v.frames:
-			if r.eof {
-				v.frames <- r
-				return r, false
-			}
+		case <-v.done:
+			return true
+		case <-time.After(time.Second):
+		}
+	}
+	return false
+}
+
+// vhloopNext waits for the next reply frame of any connection: "blocked" is concluded only after 3 x 1 s.
+func vhloopNext(frames chan vhloopReply) (vhloopReply, bool) {
+	deadline := 0
+	for deadline < 3 {
+		select {
+		case r := <-frames:
 			return r, true
 		case <-time.After(time.Second):
+			deadline++
 		}
 	}
 	return vhloopReply{}, false
 }
 
-// poll returns a reply that is already there, without waiting.
-func (v *vhloopConn) poll() (vhloopReply, bool) {
+// vhloopPoll returns a reply that is already there, without waiting.
+func vhloopPoll(frames chan vhloopReply) (vhloopReply, bool) {
 	select {
-	case r := <-v.frames:
-		if r.eof {
-			v.frames <- r
-			return r, false
-		}
+	case r := <-frames:
 		return r, true
 	default:
 		return vhloopReply{}, false
@@ -355,12 +425,12 @@ func (v *vhloopConn) poll() (vhloopReply, bool) {
 }
 
 // waitEnter waits until a backend call for gate g has begun (event based; 3 x 1 s before giving up).
-func (v *vhloopConn) waitEnter(g int) bool {
+func (b *vhloopBackend) waitEnter(g int) bool {
 	deadline := time.Now().Add(3 * time.Second)
 	for {
-		v.bk.mu.Lock()
-		n := v.bk.entered[g]
-		v.bk.mu.Unlock()
+		b.mu.Lock()
+		n := b.entered[g]
+		b.mu.Unlock()
 		if n > 0 {
 			return true
 		}
@@ -368,38 +438,8 @@ func (v *vhloopConn) waitEnter(g int) bool {
 			return false
 		}
 		select {
-		case <-v.bk.events:
-		case <-time.After(50 * time.Millisecond):
-		}
-	}
-}
-
-// finish opens every gate, closes the connection and waits for Handle to return.
-func (v *vhloopConn) finish() (returned bool, trailing []vhloopReply, left int, bad bool) {
-	v.bk.openAll()
-	v.c.Close()
-	for try := 0; try < 3 && !returned; try++ {
-		select {
-		case <-v.done:
-			returned = true
-		case <-time.After(time.Second):
-		}
-	}
-	for {
-		select {
-		case r := <-v.frames:
-			if r.eof {
-				v.mu.Lock()
-				left, bad = v.left, v.bad
-				v.mu.Unlock()
-				return
-			}
-			trailing = append(trailing, r)
-		case <-time.After(2 * time.Second):
-			v.mu.Lock()
-			left, bad = v.left, v.bad
-			v.mu.Unlock()
-			return
+		case <-b.events:
+		case <-time.After(20 * time.Millisecond):
 		}
 	}
 }
